@@ -106,8 +106,8 @@ def run(ctx):
                     cases.append({"fn": "qspp", "poly": [hexf(x) for x in p], "signal_operator": rng.choice(["Wx", "Wz"]), "bits": bits,
                                   "family": "real", "sub": "two-term", "timeout": 300})
         # members next to a collision of two real roots of 1 - F F~ (generated with numpy on the implementation side)
-        gen = run_impl([{"fn": "c03_bifurc", "d": d, "seed": rng.randrange(2 ** 31), "want": 9 if quick else 36, "timeout": 600}
-                        for d in ([2, 3, 4, 6, 8] if quick else range(2, 13))], timeout=1200)
+        gen = run_impl([{"fn": "c03_bifurc", "d": d, "seed": rng.randrange(2 ** 31), "want": 9 if quick else 36, "attempts": 80 if quick else 200, "timeout": 600}
+                        for d in ([2, 3, 4, 6, 8, 5, 7, 6, 8] if quick else list(range(2, 13)) * 2)], timeout=1200)
         nb = 0
         for g in gen:
             if "ok" not in g:
